@@ -28,6 +28,12 @@ def gen_geometric(rng):
         if abs(q) > 1e-3 and abs(q - 1) > 1e-3:
             break
     k = rng.randint(0, 6)
+    if rng.random() < 0.12:
+        # a term of the triple is zero or tiny next to the transient (the limit cancels it): L = -a q^(k+j) (1 + tiny)
+        j = rng.choice([0, 1, 2])
+        q = rng.choice([0.5, 0.25, -0.5, 2.0, -2.0, 0.75, 1.5, q])
+        a = rng.choice([1.0, -4.0, 3.0, a])
+        L = -a * q ** (k + j) * (1 + rng.choice([0.0, 0.0, 1e-9, -1e-7, 1e-12]))
     return L, a, q, k
 
 
